@@ -176,7 +176,7 @@ impl Check for C06 {
         "tptp-rendering"
     }
     fn cases(&self, tier: Tier) -> usize {
-        tier.pick(40_000, 1_000_000)
+        tier.pick(300_000, 5_000_000)
     }
     fn strategy(&self, _tier: Tier) -> BoxedStrategy<Case> {
         let c = cfg();
